@@ -443,6 +443,9 @@ pub enum Obs {
     Event(Option<u128>),
     Version(Option<u64>),
     Ids(Vec<u128>),
+    /// reverse scan: the groups as returned (a group is one transaction's events, possibly only some of them, and
+    /// a transaction may come back in more than one group: C03 allows a group to repeat its own events)
+    RevGroups(Vec<Vec<u128>>),
     Error(String),
 }
 
@@ -465,6 +468,7 @@ fn do_call(rt: &tokio::runtime::Runtime, db: &Database, c: Call, ids: &[Uuid], f
                 },
                 Call::StreamScan | Call::ReverseStreamScan | Call::PartitionScan | Call::StreamScanFrom2 | Call::PartitionScanFrom2 => {
                     let mut out = Vec::new();
+                    let mut groups: Vec<Vec<u128>> = Vec::new();
                     let res: Result<(), String> = async {
                         if matches!(c, Call::PartitionScan | Call::PartitionScanFrom2) {
                             let from = if matches!(c, Call::PartitionScanFrom2) { first_stepped } else { 0 };
@@ -483,7 +487,9 @@ fn do_call(rt: &tokio::runtime::Runtime, db: &Database, c: Call, ids: &[Uuid], f
                             let mut it = db.read_stream(part, StreamId::new("s0").unwrap(), from, dir).await.map_err(|e| e.to_string())?;
                             while let Some(b) = it.next_batch(2).await.map_err(|e| e.to_string())? {
                                 for g in b {
-                                    out.extend(g.into_iter().map(|e| e.event_id.as_u128()));
+                                    let ids: Vec<u128> = g.into_iter().map(|e| e.event_id.as_u128()).collect();
+                                    out.extend(ids.iter().copied());
+                                    groups.push(ids);
                                 }
                             }
                         }
@@ -491,6 +497,7 @@ fn do_call(rt: &tokio::runtime::Runtime, db: &Database, c: Call, ids: &[Uuid], f
                     }
                     .await;
                     match res {
+                        Ok(()) if matches!(c, Call::ReverseStreamScan) => Obs::RevGroups(groups),
                         Ok(()) => Obs::Ids(out),
                         Err(e) => Obs::Error(e),
                     }
@@ -689,6 +696,14 @@ pub fn run_case(case: &Case, out: &mut WorkerOut) {
     let sc = case.scenario;
     let Prepared { h, ids, acked, mut w, pending } = match prepare(sc, case.compression) {
         Ok(p) => p,
+        Err(e) if e.contains("did not return within") || e.contains("was not written within") => {
+            // a starved machine (other jobs on all cores): the schedule could not be set up; counted, not judged
+            pause::disable_all();
+            eprintln!("note: C15 case skipped, setup timed out: {e}");
+            out.count("cases_skipped_because_setup_timed_out", 1);
+            out.outcome("setup-timeout");
+            return;
+        }
         Err(e) => vcommon::machinery_fail(&format!("C15 setup ({sc:?}): {e}")),
     };
     let n_ev = ids.len();
@@ -874,6 +889,39 @@ pub fn run_case(case: &Case, out: &mut WorkerOut) {
                     problems.push((format!("{sck}scan-wrong/{}/{window}", call_class(st.call)), format!("{:?} (from position {f}) returned events {:?}; events #0..#{} were acknowledged before it started", st.call, posn(got), need as i64 - 1)));
                 }
             }
+            (Call::ReverseStreamScan, Obs::RevGroups(groups)) => {
+                // which transaction does each group belong to (transactions = the intervals between tx boundaries)?
+                let bounds = sc.tx_boundaries();
+                let tx_of = |id: &u128| idv.iter().position(|x| x == id).and_then(|p| bounds.windows(2).position(|w| w[0] <= p && p < w[1]));
+                let mut problem: Option<String> = None;
+                let mut last_tx: Option<usize> = None;
+                let mut seen: std::collections::BTreeSet<usize> = Default::default();
+                for g in groups {
+                    let txs: std::collections::BTreeSet<Option<usize>> = g.iter().map(tx_of).collect();
+                    if g.is_empty() || txs.len() != 1 || txs.contains(&None) {
+                        problem = Some(format!("a group is empty, mixes transactions or holds a foreign event: {:?}", posn(g)));
+                        break;
+                    }
+                    let t = txs.into_iter().next().unwrap().unwrap();
+                    if matches!(last_tx, Some(l) if t > l) {
+                        problem = Some("groups are not in decreasing order".into());
+                        break;
+                    }
+                    last_tx = Some(t);
+                    seen.extend(g.iter().filter_map(|id| idv.iter().position(|x| x == id)));
+                }
+                if problem.is_none() {
+                    let k = seen.len();
+                    let is_prefix = seen.iter().copied().eq(0..k);
+                    if !(is_prefix && k >= need && bounds.contains(&k)) {
+                        problem = Some(format!("the events returned are #{seen:?}; events #0..#{} were acknowledged before it started", need as i64 - 1));
+                    }
+                }
+                if let Some(pr) = problem {
+                    let flat: Vec<u128> = groups.iter().flatten().copied().collect();
+                    problems.push((format!("{sck}scan-wrong/{}/{window}", call_class(st.call)), format!("ReverseStreamScan returned {:?}: {pr}", posn(&flat))));
+                }
+            }
             (Call::StreamScan | Call::PartitionScan | Call::ReverseStreamScan, Obs::Ids(got)) => {
                 let ok = sc.tx_boundaries().iter().any(|&k| {
                     let mut expect: Vec<u128> = idv[..k].to_vec();
@@ -900,6 +948,7 @@ pub fn run_case(case: &Case, out: &mut WorkerOut) {
             (Obs::Event(Some(_)), Obs::Event(None)) => true,
             (Obs::Version(a), Obs::Version(b)) => b < a,
             (Obs::Ids(a), Obs::Ids(b)) => a.iter().any(|x| !b.contains(x)),
+            (Obs::RevGroups(a), Obs::RevGroups(b)) => a.iter().flatten().any(|x| !b.iter().flatten().any(|y| y == x)),
             _ => false,
         };
         if back {
@@ -908,7 +957,7 @@ pub fn run_case(case: &Case, out: &mut WorkerOut) {
     }
     out.count("reader_steps_blocked_by_lock", blocked_steps);
     out.state(vcommon::fnv(format!("{sc:?}{:?}", observations.iter().map(|(s, o, a, b, k)| (s.call, s.split.clone(), a, b, k.iter().filter(|x| **x).count(), format!("{o:?}").len())).collect::<Vec<_>>()).as_bytes()));
-    out.outcome(format!("{sc:?}{:?}", observations.iter().map(|(s, o, ..)| format!("{:?}={}", s.call, match o { Obs::Error(_) => "err".to_string(), Obs::Event(e) => format!("{}", e.is_some()), Obs::Version(v) => format!("{v:?}"), Obs::Ids(i) => format!("{}ids", i.len()) })).collect::<Vec<_>>()));
+    out.outcome(format!("{sc:?}{:?}", observations.iter().map(|(s, o, ..)| format!("{:?}={}", s.call, match o { Obs::Error(_) => "err".to_string(), Obs::Event(e) => format!("{}", e.is_some()), Obs::Version(v) => format!("{v:?}"), Obs::Ids(i) => format!("{}ids", i.len()), Obs::RevGroups(g) => format!("{}groups", g.len()) })).collect::<Vec<_>>()));
     for (k, d) in problems {
         out.violation(&format!("C15/{k}"), &format!("{d} [{sc:?}, steps {}]", serde_json::to_string(&case.steps).unwrap()), case_json.clone());
     }
@@ -942,7 +991,8 @@ pub fn run(args: Args) {
                 "transitions": m.transitions,
                 "traces_validated_against_impl": m.cases_done,
                 "samples": m.samples,
-                "exhaustive": !m.capped,
+                "exhaustive": !m.capped && m.counters.get("cases_skipped_because_setup_timed_out").copied().unwrap_or(0) == 0,
+                "cases_skipped_because_setup_timed_out": m.counters.get("cases_skipped_because_setup_timed_out").copied().unwrap_or(0),
                 "schedules_enumerated": total,
                 "schedules_executed": m.cases_done,
                 "distinct_observed_outcomes": m.outcomes.len(),
